@@ -193,13 +193,18 @@ func TestC11Table(t *testing.T) {
 func TestC11Trees(t *testing.T) {
 	seedNote(t)
 	StartWatchdog("C11", 60*time.Second)
-	st := NewStats("C11", "trees", "type-directed expression trees of depth <= 4 over boundary literals, match, matchLength and set-bound variables, each rendered with full and with minimal parentheses (only parentheses made redundant by the stated precedence/associativity rules are dropped) and observed through a transform and, for booleans, a predicate; non-trivial = depth >= 2 with a coercion or two operators of different precedence adjacent without parentheses; distinct by rendered text, match text and form")
+	st := NewStats("C11", "trees", "type-directed expression trees of depth <= 4 over boundary literals, match, matchLength, set-bound variables and a never-assigned name (a string, evaluating to ''), each rendered with full and with minimal parentheses (only parentheses made redundant by the stated precedence/associativity rules are dropped) and observed through a transform and, for booleans, a predicate; non-trivial = depth >= 2 with a coercion or two operators of different precedence adjacent without parentheses; distinct by rendered text, match text and form")
 	defer st.Write()
 	rapid.Check(t, func(t *rapid.T) {
 		eg := &exprGen{t: t, vars: map[PType][]string{TString: {"match"}, TNumber: {"matchLength"}}}
 		var pre []Stmt
 		if rapid.Bool().Draw(t, "withvars") {
 			pre = declareVars(eg)
+		}
+		if rapid.IntRange(0, 3).Draw(t, "withunbound") == 0 {
+			// a name that is never assigned: the checker types it as a string and it
+			// evaluates to '' whatever was evaluated before it
+			eg.vars[TString] = append(eg.vars[TString], "u9")
 		}
 		want := eg.anyType()
 		depth := rapid.IntRange(1, 4).Draw(t, "depth")
@@ -224,6 +229,9 @@ func TestC11Trees(t *testing.T) {
 					Fail(t, Failure{Property: "C11", Kind: "expr", What: what, Case: c, Sig: sig})
 				}
 				st.Count("status_" + status)
+				if status == "ok" && exprUsesVar(e, "u9") {
+					st.Count("uses_never_assigned_name")
+				}
 				if status != "ok" {
 					continue
 				}
@@ -236,4 +244,14 @@ func TestC11Trees(t *testing.T) {
 			}
 		}
 	})
+}
+
+func exprUsesVar(e *Expr, name string) bool {
+	if e == nil {
+		return false
+	}
+	if e.K == "var" && e.S == name {
+		return true
+	}
+	return exprUsesVar(e.L, name) || exprUsesVar(e.R, name)
 }
